@@ -8,6 +8,14 @@ Structural clauses decided (see DESIGN.md §4 C06):
 """
 from .common import *
 
+META = dict(
+    technique="static analysis: enforcement/comparison-polarity/def-use rules over compiler MIR",
+    text=("Structural necessary conditions of the threshold policy, decided from MIR on every run: both threshold comparisons "
+          "reject with the right orientation, key lookups and signature verification results are branched on with the rejecting "
+          "polarity, one accepting return, the signed digest covers header then payload in one hasher and is the value verified. "
+          "Not a proof of the behavioural property: cryptographic binding and the energy formulas are not decided."),
+)
+
 CB = "concordium_base"
 T = CB + "::transactions::"
 
